@@ -8,6 +8,8 @@ package bpmn
 import (
 	"context"
 	"time"
+
+	"github.com/olive-io/bpmn/v2/internal/verifhook"
 )
 
 // VerifDistribute calls distributeFlows with a waiting tokens and s outgoing flows and reports, per waiting
@@ -71,3 +73,6 @@ func VerifTaskTraceCaps() (forward, response, done int) {
 	t := newTaskTrace()
 	return cap(t.forward), cap(t.response), cap(t.done)
 }
+
+// VerifSetHook installs the handler called at every verifhook.Point (nil removes it).
+func VerifSetHook(h func(point string)) { verifhook.Set(h) }
